@@ -170,7 +170,7 @@ func main() {
 		isish.ChildMain(runCase)
 	}
 	vf.Main("C30", "exploration", func(r *vf.Run) {
-		rule := "(decode-panic) 150 000 byte strings derived from valid PDUs of every type code (P2P/LAN hellos, L1/L2 LSP, CSNP, PSNP; every TLV type bio-rd knows plus unknown ones) by 1-3 mutations out of: bit flip, boundary byte, truncation (anywhere / inside a TLV), appended octets, TLV length edit, TLV type edit, PDU type edit, inserted TLV of a known type with a short or long value, duplicated TLV, splice of two PDUs, fixed-header field edit; each handed to packet.Decode (and packet.DecodeL2Hello for LAN hellos) under recover, in child processes with a watchdog. (encoding, roundtrip, snp-set, panic) 30 000 PDUs built through bio-rd's constructors in the shape the server builds them: P2P hellos (three-way TLV with and without neighbor, protocols supported, 0..70 IP interface addresses, 0..12 area addresses, padding, checksum, IS neighbors TLV), LSPs (area, protocols, IP interface addresses, extended IP reachability with 0..40 prefixes of length 0..32, extended IS reachability with 0..12 neighbors and their sub-TLVs, hostname 0..255 octets, TE router id, unknown TLV; UpdateLength + SetChecksum), CSNPs and PSNPs from NewCSNPs/NewPSNPs with 0..200 entries and several maximum PDU lengths: serialised octets equal an independent ISO 10589 encoder's (specs whose content does not fit a single TLV are skipped and counted), Decode succeeds, decoded fields equal (typed TLVs field by field, unknown TLVs octet by octet), Serialize(Decode(x)) == x, the SNPs together carry all entries. (roundtrip src=wire) 12 000 well-formed PDUs built by the independent encoder in layouts Decode accepts but the server may never emit (three-way TLV in all four RFC 5303 layouts 1/5/11/15, TLVs shuffled and repeated, empty TLVs, unknown TLVs, several LSP Entries TLVs of 0..15 entries per SNP, IS reachability, TE router id, sub-TLVs): Decode succeeds, sees the same content as the independent parser (three-way fields compared one by one) and Serialize(Decode(x)) == x. (emitted-malformed, roundtrip) every distinct PDU emitted by the running server in samples of the adjacency, LSDB and interface workloads and by servers with 1..40 interfaces, up to 70 addresses per interface (up to 31 on interfaces with an adjacency) and 0..12 Up adjacencies: well-formed for the independent parser, decodes, re-serialises to the same octets, same content for both decoders. distinct_nontrivial = distinct mutated inputs that got past the fixed header into the TLV loop + distinct generated PDU shapes + distinct emitted PDUs"
+		rule := "(decode-panic) 150 000 byte strings derived from valid PDUs of every type code (P2P/LAN hellos, L1/L2 LSP, CSNP, PSNP; every TLV type bio-rd knows plus unknown ones) by 1-3 mutations out of: bit flip, boundary byte, truncation (anywhere / inside a TLV), appended octets, TLV length edit, TLV type edit, PDU type edit, inserted TLV of a known type with a short or long value, duplicated TLV, splice of two PDUs, fixed-header field edit; each handed to packet.Decode (and packet.DecodeL2Hello for LAN hellos) under recover, in child processes with a watchdog. (encoding, roundtrip, snp-set, panic) 30 000 PDUs built through bio-rd's constructors in the shape the server builds them: P2P hellos (three-way TLV with and without neighbor, protocols supported, 0..70 IP interface addresses, 0..12 area addresses, padding, checksum, IS neighbors TLV), LSPs (area, protocols, IP interface addresses, extended IP reachability with 0..40 prefixes of length 0..32, in half of the LSPs a third of them with the up/down bit and in one LSP of eight a third of them with the sub-TLV bit in the control octet, extended IS reachability with 0..12 neighbors and their sub-TLVs, hostname 0..255 octets, TE router id, unknown TLV; UpdateLength + SetChecksum), CSNPs and PSNPs from NewCSNPs/NewPSNPs with 0..200 entries and several maximum PDU lengths; in a third of the hellos and LSPs the IP interface addresses TLV is built from 1..40 interface prefixes of lengths 8..32 drawn with replacement from a small address pool, so that the same address occurs several times (the same address as /24 and /32, unnumbered interfaces): serialised octets equal an independent ISO 10589 encoder's (specs whose content does not fit a single TLV are skipped and counted; a repeated interface address may be announced every time or once; LSPs with the sub-TLV bit have no reference encoding because bio-rd writes no sub-TLV length octet: they are judged by the round trip alone and counted), Decode succeeds, decoded fields equal (typed TLVs field by field, unknown TLVs octet by octet), Serialize(Decode(x)) == x, the SNPs together carry all entries. (roundtrip src=wire) 12 000 well-formed PDUs built by the independent encoder in layouts Decode accepts but the server may never emit (three-way TLV in all four RFC 5303 layouts 1/5/11/15, TLVs shuffled and repeated, empty TLVs, unknown TLVs, several LSP Entries TLVs of 0..15 entries per SNP, IS reachability, TE router id, sub-TLVs): Decode succeeds, sees the same content as the independent parser (three-way fields compared one by one) and Serialize(Decode(x)) == x. (emitted-malformed, roundtrip) every distinct PDU emitted by the running server in samples of the adjacency, LSDB and interface workloads and by servers with 1..40 interfaces, up to 70 addresses per interface (up to 31 on interfaces with an adjacency), 0..30 addresses per interface configured twice (/31 or /24 and /32) and 0..12 Up adjacencies: well-formed for the independent parser, decodes, re-serialises to the same octets, same content for both decoders. distinct_nontrivial = distinct mutated inputs that got past the fixed header into the TLV loop + distinct generated PDU shapes + distinct emitted PDUs"
 		r.Rule(rule)
 		r.Assume("PDUs are serialised the way the server does it: ISISHeader with the length indicator of the PDU type followed by the body's Serialize; Decode is given the 3 LLC octets in front, as on the receive path",
 			"the LSP checksum is not part of the equality (counted separately): the statement speaks of content")
@@ -249,6 +249,10 @@ func main() {
 		for _, bc := range [][3]int{{1, 0, 1}, {3, 2, 3}, {7, 0, 7}, {8, 0, 8}, {12, 0, 12}, {10, 1, 2}, {30, 0, 2}, {2, 30, 1}, {1, 70, 0}, {40, 1, 0}, {20, 3, 4}} {
 			wl("biglsp", isish.BigLSPCase{Ifaces: bc[0], Extra: bc[1], Up: bc[2]})
 		}
+		// the same address configured more than once on an interface (as /31 or /24 and as /32)
+		for _, bc := range [][4]int{{1, 0, 1, 1}, {2, 3, 1, 2}, {3, 1, 3, 1}, {1, 40, 0, 30}} {
+			wl("biglsp", isish.BigLSPCase{Ifaces: bc[0], Extra: bc[1], Up: bc[2], Dup: bc[3]})
+		}
 		outs := isish.RunBatch(cases, opts)
 		// a chunk of inputs that killed its child is re-run input by input to find the culprit
 		var single []isish.Case
@@ -282,6 +286,11 @@ func main() {
 		r.Require("decode_ok", 10000)
 		r.Require("roundtrips_hello", 1000)
 		r.Require("roundtrips_lsp", 1000)
+		r.Require("ext_ip_entries_updown_bit", 1000)
+		r.Require("ext_ip_entries_subtlv_bit", 100)
+		r.Require("hellos_with_repeated_if_addr", 300)
+		r.Require("lsps_with_repeated_if_addr", 300)
+		r.Require("workloads_biglsp", 15)
 		r.Require("wire_hello", 1000)
 		r.Require("wire_lsp", 1000)
 		r.Require("wire_psnp", 500)
